@@ -114,7 +114,8 @@ type scanCfg struct {
 	twoEx     bool
 	nStand    int
 	nDet      int
-	paths []string // PathsToExtract (explicit-path mode of the walker)
+	paths     []string // PathsToExtract (explicit-path mode of the walker)
+	symlinks  bool     // ReadSymlinks
 	// cancelAt: index into the event log at which the context is cancelled (-1 never, -2 before Scan)
 	cancelAt int
 }
@@ -145,7 +146,7 @@ func runScan(c scanCfg) scanOut {
 			rec(event{"extract", name, in.Path, sz})
 		}}
 	}
-	exs := []filesystem.Extractor{mkEx("ex1", scankit.ReqBase("p1.txt", "p2.txt"))}
+	exs := []filesystem.Extractor{mkEx("ex1", scankit.ReqBase("p1.txt", "p2.txt", "lnk.txt"))}
 	if c.twoEx {
 		exs = append(exs, mkEx("ex2", scankit.ReqBase("p2.txt")))
 	}
@@ -171,7 +172,7 @@ func runScan(c scanCfg) scanOut {
 		roots = append(roots, &scalibrfs.ScanRoot{FS: memfs.New(r), Path: ""})
 	}
 	cfg := &scalibr.ScanConfig{FilesystemExtractors: exs, StandaloneExtractors: sts, Detectors: dets, Capabilities: &plugin.Capabilities{},
-		ScanRoots: roots, MaxInodes: c.maxInodes, MaxFileSize: c.maxSize, Stats: col, PathsToExtract: c.paths}
+		ScanRoots: roots, MaxInodes: c.maxInodes, MaxFileSize: c.maxSize, Stats: col, PathsToExtract: c.paths, ReadSymlinks: c.symlinks}
 	if c.cancelAt == -2 {
 		cancel()
 	}
@@ -309,6 +310,40 @@ func main() {
 					}
 				}
 			}
+			// (B') the size limit applies to what the extractor is handed, also through a symlink: a
+			// short link to a file over the limit must not reach any extractor
+			p2 := ""
+			memfs.Walk(root, func(p string, nd *memfs.Node) {
+				if nd.Kind == memfs.File && nd.Name == "p2.txt" && p2 == "" {
+					p2 = p
+				}
+			})
+			if p2 != "" {
+				withLink := root.Clone()
+				withLink.Children = append(withLink.Children, memfs.L("lnk.txt", "/"+p2))
+				for _, lim := range []int{0, 1, 4, 5, 6} {
+					o := runScan(scanCfg{roots: []*memfs.Node{withLink}, maxSize: lim, cancelAt: -1, twoEx: true, symlinks: true})
+					r.Evals.Add(1)
+					viaLink := false
+					for _, e := range o.events {
+						if e.kind != "extract" {
+							continue
+						}
+						if e.path == "lnk.txt" {
+							viaLink = true
+						}
+						if lim > 0 && e.size > int64(lim) {
+							r.Violation("file-over-size-limit-extracted", fmt.Sprintf("tree %s + lnk.txt->/%s, ReadSymlinks, MaxFileSize=%d: %s extracted %s of size %d", ts, p2, lim, e.who, e.path, e.size), map[string]any{"tree": ts, "symlink_to": p2, "max_file_size": lim})
+						}
+					}
+					if (lim == 0 || lim >= 5) && !viaLink {
+						r.Violation("file-within-size-limit-not-extracted", fmt.Sprintf("tree %s + lnk.txt->/%s, ReadSymlinks, MaxFileSize=%d: the link was not extracted", ts, p2, lim), map[string]any{"tree": ts, "symlink_to": p2, "max_file_size": lim})
+					}
+					if lim > 0 && lim < 5 {
+						r.Nontrivial.Add(1)
+					}
+				}
+			}
 			// (C) every cancellation point
 			// explicit-path mode: the first directory plus the first required file of the tree
 			var reqPaths []string
@@ -415,7 +450,7 @@ func main() {
 		r.Set(fmt.Sprintf("trees_with_%d_nodes", n), len(trees))
 	}
 	imagePart(r)
-	r.Finish(fmt.Sprintf("every tree with <=%d nodes (dirs a,b; p1.txt size 1, p2.txt size 5 required by two extractors, junk): (A) MaxInodes in {0,1,n-1,n,n+1} with 1 and 2 roots; (B) MaxFileSize in {0,1,s-1,s,s+1} for every file size s; (C) cancellation at every event of the uncancelled run (inode visit, Extract, AfterExtractorRun, standalone extractor, detector; and before Scan) for 0/1/2 standalone extractors and detectors, whole-tree walk and explicit-path mode (first directory + first required file requested); (D) images: file size L-1,L,L+1 x MaxFileBytes L in {1,2,5,4096} x layer position x older version underneath. non-trivial = limit actually hit / work actually cut", maxNodes), complete)
+	r.Finish(fmt.Sprintf("every tree with <=%d nodes (dirs a,b; p1.txt size 1, p2.txt size 5 required by two extractors, junk): (A) MaxInodes in {0,1,n-1,n,n+1} with 1 and 2 roots; (B) MaxFileSize in {0,1,s-1,s,s+1} for every file size s, and through a symlink to the 5-byte file with ReadSymlinks on; (C) cancellation at every event of the uncancelled run (inode visit, Extract, AfterExtractorRun, standalone extractor, detector; and before Scan) for 0/1/2 standalone extractors and detectors, whole-tree walk and explicit-path mode (first directory + first required file requested); (D) images: file size L-1,L,L+1 x MaxFileBytes L in {1,2,5,4096} x layer position x older version underneath. non-trivial = limit actually hit / work actually cut", maxNodes), complete)
 }
 
 func evAt(evs []event, at int) any {
